@@ -30,22 +30,34 @@ const lockPath = "/grogroot/ws/lockfile"
 // the lock file and what the file contained at that moment (i.e. whose lock was deleted).
 func classify() {
 	log := sym.FSLog()
+	sym.Note("fs-log", strings.Join(log, " | "))
 	for i := len(log) - 1; i >= 0; i-- {
 		f := strings.SplitN(log[i], " ", 4)
 		if len(f) < 4 || f[1] != "remove" || f[2] != lockPath {
 			continue
 		}
+		if strings.Contains(f[3], "by=Unlock") {
+			continue // releasing is never the decisive step (it may delete a thief's file, but only after the theft)
+		}
 		remover, _ := strconv.Atoi(f[0])
-		content := strings.TrimPrefix(f[3], "content=")
-		if content == strconv.Quote(strconv.Itoa(remover)) {
-			continue // a process removing its own lock file (Unlock): not the decisive step
+		content := f[3]
+		if j := strings.Index(content, "content="); j >= 0 {
+			content = content[j+len("content="):]
+		} else {
+			continue // nothing was there to remove
 		}
 		switch {
 		case content == `""`:
 			// an empty lock file: its owner had created it but not yet written its PID
 			sym.Class("removed-lock-file-before-holder-wrote-its-pid")
 		case isLivePid(content, remover):
-			sym.Class("removed-fresh-lock-after-judging-an-older-file-stale")
+			// was the staleness judgement made in the same retry iteration (read, then preempted before
+			// the remove), or on information remembered across a wait?
+			if readInSameIteration(log[:i], remover) {
+				sym.Class("removed-fresh-lock-after-judging-an-older-file-stale")
+			} else {
+				sym.Class("removed-live-lock-without-re-reading-the-lock-file")
+			}
 		default:
 			sym.Class("lock-lost-after-removal-of-" + content)
 		}
@@ -54,9 +66,31 @@ func classify() {
 	sym.Class("no-removal-of-the-lock-file")
 }
 
+// readInSameIteration: walking back through the remover's own steps, a read of the lock file comes
+// before any wait (time.After).
+func readInSameIteration(log []string, remover int) bool {
+	for i := len(log) - 1; i >= 0; i-- {
+		f := strings.SplitN(log[i], " ", 4)
+		if len(f) < 3 {
+			continue
+		}
+		if pid, err := strconv.Atoi(f[0]); err != nil || pid != remover {
+			continue
+		}
+		switch f[1] {
+		case "readfile":
+			return f[2] == lockPath
+		case "sleep":
+			return false
+		}
+	}
+	return false
+}
+
 func isLivePid(quoted string, remover int) bool {
+	// the PID of another contender of this scenario (it may have exited by the time the violation shows)
 	pid, err := strconv.Atoi(strings.Trim(quoted, `"`))
-	return err == nil && pid != remover && verifProcessRunning(pid)
+	return err == nil && pid != remover && pid >= 100 && pid < 110
 }
 
 // K1/K2/K3: contending processes, every interleaving of their file-system steps (within the
@@ -114,8 +148,8 @@ func lockScenario(nProcs int, withCrash bool) {
 				if acquired[i] && holders > 0 {
 					holders-- // a dead process no longer runs a build
 				}
-				alive[pid] = false
 			}
+			alive[pid] = false // the process is gone (crashed, or exited after its build)
 			finished <- i
 		}()
 	}
@@ -131,10 +165,4 @@ func lockScenario(nProcs int, withCrash bool) {
 
 func VerifC10_K_two_processes() { lockScenario(2, flag("one_process_may_crash")) }
 
-func VerifC10_K_three_processes() {
-	if sym.Tier() != "thorough" {
-		sym.Reach("C10.scenario.3")
-		return
-	}
-	lockScenario(3, false)
-}
+func VerifC10_K_three_processes() { lockScenario(3, false) }
